@@ -1,7 +1,7 @@
 (* C03 — decoding untrusted bytes never panics, hangs or mis-frames.
    Only the property theorems live here; proofs are in Proofs/FramesTotal.v. *)
 From Coq Require Import List ZArith NArith.
-From GQ Require Import Lib.Wire Model.Varint Model.Frames Proofs.FramesTotal.
+From GQ Require Import Lib.Wire Model.Varint Model.Frames Model.Packets Model.Params Proofs.FramesTotal Proofs.Packets.
 Import ListNotations.
 Local Open Scope Z_scope.
 
@@ -31,6 +31,35 @@ Theorem c03_error_mapping : forall e,
   quic_error_of e = (match e with ENoFrames => EK_PROTOCOL_VIOLATION | _ => EK_FRAME_ENCODING end).
 Proof. exact p_c03_error_mapping. Qed.
 
+(* the first look at a datagram: for every dcid length and every byte string be_packet never panics
+   (this is the repaired behaviour: a connection-id length above 20 used to hit unreachable!) … *)
+Theorem c03_packet_no_panic : forall n dg s, be_packet n dg <> PPanic s.
+Proof. exact p_c03_packet_no_panic. Qed.
+
+(* … a parsed packet lies inside the datagram … *)
+Theorem c03_packet_bounds : forall n dg h total off,
+  be_packet n dg = POk h total off -> 0 < total <= zlen dg /\ 0 <= off <= total.
+Proof. exact p_c03_packet_bounds. Qed.
+
+(* … and splitting a datagram into coalesced packets terminates, stays inside it and stops at the first error *)
+Theorem c03_packets_of : forall n dg,
+  sum_totals (packets_of n dg) <= zlen dg /\
+  (forall r, In r (packets_of n dg) -> forall s, r <> PPanic s) /\
+  (forall extra, read_packets (extra + S (length dg)) n dg = packets_of n dg).
+Proof. exact p_c03_packets_of. Qed.
+
+(* transport parameters of either role: never a panic, the loop terminates within |blob|+1 rounds,
+   and every failure is the TRANSPORT_PARAMETER_ERROR connection error *)
+Theorem c03_params_no_panic : forall r buf s, parse_params r buf <> PaPanic s.
+Proof. exact p_c03_params_no_panic. Qed.
+
+Theorem c03_params_fuel : forall r fuel m buf, (length buf < fuel)%nat ->
+  parse_loop (S fuel) r m buf = parse_loop fuel r m buf.
+Proof. exact parse_loop_fuel. Qed.
+
+Theorem c03_param_error_kind : param_error_kind = EK_TRANSPORT_PARAMETER.
+Proof. exact p_c03_param_error_kind. Qed.
+
 Example c03_nonvacuous :
   be_frame PInitial [6; 0; 5; 1] = FErr EIncompleteFrame /\
   be_frame PInitial [8; 0] = FErr EWrongType /\
@@ -43,4 +72,10 @@ Print Assumptions c03_frame_consumed.
 Print Assumptions c03_frame_type_checked.
 Print Assumptions c03_frames_of.
 Print Assumptions c03_error_mapping.
+Print Assumptions c03_packet_no_panic.
+Print Assumptions c03_packet_bounds.
+Print Assumptions c03_packets_of.
+Print Assumptions c03_params_no_panic.
+Print Assumptions c03_params_fuel.
+Print Assumptions c03_param_error_kind.
 Print Assumptions c03_nonvacuous.
